@@ -16,6 +16,7 @@
 #include "valio.h"
 #include <math.h>
 #include <signal.h>
+#include "upolynomial/upolynomial.h"
 #include <unistd.h>
 
 /* a case that does not terminate (e.g. a bisection loop keeping the half without the root) must not stall the
@@ -34,6 +35,33 @@ static lp_algebraic_number_t pool[NP];
 static int used[NP];
 
 static size_t deg_of(const lp_algebraic_number_t* a) { return a->f ? lp_upolynomial_degree(a->f) : 1; }
+/* number of monomials of the defining polynomial (2 for a point: q x - p) */
+static size_t terms_of(const lp_algebraic_number_t* a) { return a->f ? a->f->size : 2; }
+/* sparse polynomial with small coefficients (at most 3 monomials, |c| < 2^16); points count as such */
+static int small_sparse(const lp_algebraic_number_t* a) {
+  if (!a->f) return mpz_sizeinbase(&a->I.a.a, 2) <= 16 && a->I.a.n <= 16;
+  if (a->f->size > 3) return 0;
+  for (size_t i = 0; i < a->f->size; ++i) if (mpz_sizeinbase(&a->f->monomials[i].coefficient, 2) > 16) return 0;
+  return 1;
+}
+/* is the binary step cheap enough for the reference arithmetic of the model side?  general operands: product of the
+ * degrees <= DLIM; beyond that only small sparse polynomials: a degree <= 3 with a degree <= 11 operand, or two
+ * binomials x^n - c (sparse resultants) with degree product <= 70 */
+static int binary_ok(const lp_algebraic_number_t* a, const lp_algebraic_number_t* b) {
+  size_t da = deg_of(a), db = deg_of(b);
+  size_t lo = da < db ? da : db, hi = da < db ? db : da;
+  if (da * db <= DLIM) return 1;
+  if (!small_sparse(a) || !small_sparse(b)) return 0;
+  if (lo <= 3 && hi <= 11) return 1;
+  if (terms_of(a) == 2 && terms_of(b) == 2 && da * db <= 70) return 1;
+  return 0;
+}
+/* large exponents only on small sparse polynomials */
+static int pow_ok(const lp_algebraic_number_t* a, unsigned n) {
+  if (deg_of(a) > 8) return 0;
+  if (n <= 8) return 1;
+  return n <= 13 && small_sparse(a);
+}
 
 static int from_value(lp_algebraic_number_t* a, const lp_value_t* v) {
   switch (v->type) {
@@ -88,7 +116,7 @@ static void do_step(char* step) {
   if (!strcmp(op, "add") || !strcmp(op, "sub") || !strcmp(op, "mul") || !strcmp(op, "div")) {
     int k = a1, i = a2, j = a3;
     if (!used[i] || !used[j]) { printf("badslot"); return; }
-    if (deg_of(&pool[i]) * deg_of(&pool[j]) > DLIM) { printf("skip"); return; }
+    if (!binary_ok(&pool[i], &pool[j])) { printf("skip"); return; }
     if (op[0] == 'd' && lp_algebraic_number_sgn(&pool[j]) == 0) { printf("undef"); return; }
     lp_algebraic_number_t* r = out_slot(k);
     switch (op[0]) {
@@ -113,14 +141,14 @@ static void do_step(char* step) {
     vio_print_alg(r);
   } else if (!strcmp(op, "pow")) {
     int k = a1, i = a2; unsigned n = (unsigned) a3; if (!used[i]) { printf("badslot"); return; }
-    if (deg_of(&pool[i]) > 8 || n > 8) { printf("skip"); return; }
+    if (!pow_ok(&pool[i], n)) { printf("skip"); return; }
     lp_algebraic_number_t* r = out_slot(k);
     lp_algebraic_number_pow(r, &pool[i], n);
     vio_print_alg(r);
   } else if (!strcmp(op, "root")) {
     int k = a1, i = a2; unsigned n = (unsigned) a3; if (!used[i]) { printf("badslot"); return; }
     if (n == 0 || lp_algebraic_number_sgn(&pool[i]) < 0) { printf("undef"); return; }
-    if (deg_of(&pool[i]) * n > DLIM) { printf("skip"); return; }
+    if (deg_of(&pool[i]) * n > DLIM && !(terms_of(&pool[i]) == 2 && small_sparse(&pool[i]) && deg_of(&pool[i]) * n <= 33)) { printf("skip"); return; }
     lp_algebraic_number_t* r = out_slot(k);
     lp_algebraic_number_positive_root(r, &pool[i], n);
     vio_print_alg(r);
